@@ -9,8 +9,8 @@ import (
 	"io"
 	"math/rand"
 	"net"
-	"os"
 	nethttp "net/http"
+	"os"
 	"strings"
 	"sync"
 	"testing"
@@ -106,7 +106,10 @@ var light = os.Getenv("VERIF_LIGHT") == "1"
 
 func lengths(quick bool, udp bool) []int {
 	set := map[int]bool{}
-	top := 300
+	top := 1100
+	if !quick {
+		top = 5000
+	}
 	if light {
 		top = 40
 	}
@@ -153,7 +156,7 @@ func TestCheck(t *testing.T) {
 	peer.Register()
 	r := h.Start(t, "C12")
 	defer r.Finish()
-	r.Meta("rule", "real client <-> real server on every transport {mock, tcp, unix, udp, net/http, fasthttp server, websocket on net/http and on fasthttp; the fasthttp client transport in processes of its own}: request lengths 0..300 exhaustively, +-2 around every power of two up to 2^20, 255/256, 4095..4097, 65499/65500/65507, 64 KiB +-2, 1 MiB x contents {zeros, 0xff, pseudo-random, frame-header look-alikes, hprose look-alikes} x response lengths from the same set; an IO-level recorder inside the service must see exactly the submitted bytes and the caller must get exactly the bytes the service produced (the in-process result of Service.Handle for the same request). Hand-crafted frames from raw peers: every single-bit flip of the 12-byte tcp/unix header and the 8-byte udp header (exhaustive), declared vs actual body length for all pairs in {0,1,5,100,65499} (udp preceded by another client's datagram full of a marker), http Content-Length larger than the bytes sent followed by half-close, tcp close mid-body; mirror set from raw servers to real clients. Oracle: nothing delivered, or exactly the declared self-consistent frame; never truncated, padded or completed with foreign bytes. distinct_nontrivial = distinct (transport, direction, length, content) cells and (transport, corruption) cases")
+	r.Meta("rule", "real client <-> real server on every transport {mock, tcp, unix, udp, net/http, fasthttp server, websocket on net/http and on fasthttp; the fasthttp client transport in processes of its own}: request lengths 0..1100 exhaustively (0..5000 in the thorough tier, 0..40 under the race detector), +-2 around every power of two up to 2^20, 255/256, 4095..4097, 65499/65500/65507, 64 KiB +-2, 1 MiB x contents {zeros, 0xff, pseudo-random, frame-header look-alikes, hprose look-alikes} x response lengths from the same set; an IO-level recorder inside the service must see exactly the submitted bytes and the caller must get exactly the bytes the service produced (the in-process result of Service.Handle for the same request). Hand-crafted frames from raw peers: every single-bit flip of the 12-byte tcp/unix header and the 8-byte udp header (exhaustive), declared vs actual body length for all pairs in {0,1,5,100,65499} (udp preceded by another client's datagram full of a marker), http Content-Length larger than the bytes sent followed by half-close, tcp close mid-body; mirror set from raw servers to real clients. Oracle: nothing delivered, or exactly the declared self-consistent frame; never truncated, padded or completed with foreign bytes. distinct_nontrivial = distinct (transport, direction, length, content) cells and (transport, corruption) cases")
 	r.Meta("assumptions", []string{
 		"payload sizes up to 1 MiB (udp up to 65499 bytes)",
 		"for a frame that is self-consistent after corruption (declared length shorter than what follows) the declared prefix may be delivered; the rest must not be",
@@ -336,32 +339,33 @@ func tcpBitFlips(c *h.Case, kind string) {
 		return
 	}
 	defer srv.Close()
-	body := []byte("0123456789abcdefghij")
-	for bit := 0; bit < 96; bit++ {
-		conn, err := dialRaw(kind, srv.Addr)
-		if err != nil {
-			r.Inconclusive(err.Error())
-			return
-		}
-		frame := peer.TCPFrame(5, body, false)
-		frame[bit/8] ^= 1 << uint(bit%8)
-		conn.Write(frame)
-		// followed by an intact frame from the same peer: it must not be used to complete the broken one
-		conn.Write(peer.TCPFrame(6, []byte("second-frame"), false))
-		conn.SetReadDeadline(time.Now().Add(300 * time.Millisecond))
-		io.ReadAll(conn)
-		conn.Close()
-		settle()
-		r.Eval(1)
-		for _, s := range rec.take() {
-			if !bytes.Equal(s, body) && !bytes.Equal(s, []byte("second-frame")) {
-				c.Violation("corrupted-header-frame-delivered:"+kind, fmt.Sprintf("header bit %d flipped: the service was handed %d bytes %q", bit, len(s), clip(s, 40)), map[string]interface{}{"bit": bit})
+	for _, body := range [][]byte{[]byte("0123456789abcdefghij"), {}} {
+		for bit := 0; bit < 96; bit++ {
+			conn, err := dialRaw(kind, srv.Addr)
+			if err != nil {
+				r.Inconclusive(err.Error())
+				return
 			}
-			if bytes.Equal(s, body) {
-				c.Violation("corrupted-header-frame-delivered:"+kind, fmt.Sprintf("header bit %d flipped but the frame body was delivered", bit), map[string]interface{}{"bit": bit})
+			frame := peer.TCPFrame(5, body, false)
+			frame[bit/8] ^= 1 << uint(bit%8)
+			conn.Write(frame)
+			// followed by an intact frame from the same peer: it must not be used to complete the broken one
+			conn.Write(peer.TCPFrame(6, []byte("second-frame"), false))
+			conn.SetReadDeadline(time.Now().Add(300 * time.Millisecond))
+			io.ReadAll(conn)
+			conn.Close()
+			settle()
+			r.Eval(1)
+			for _, s := range rec.take() {
+				if !bytes.Equal(s, body) && !bytes.Equal(s, []byte("second-frame")) {
+					c.Violation("corrupted-header-frame-delivered:"+kind, fmt.Sprintf("header bit %d flipped: the service was handed %d bytes %q", bit, len(s), clip(s, 40)), map[string]interface{}{"bit": bit})
+				}
+				if bytes.Equal(s, body) {
+					c.Violation("corrupted-header-frame-delivered:"+kind, fmt.Sprintf("header bit %d flipped but the frame body was delivered", bit), map[string]interface{}{"bit": bit})
+				}
 			}
+			r.Distinct(fmt.Sprintf("%s|bitflip|%d|%d", kind, bit, len(body)))
 		}
-		r.Distinct(fmt.Sprintf("%s|bitflip|%d", kind, bit))
 	}
 }
 
@@ -502,16 +506,18 @@ func udpBitFlips(c *h.Case) {
 		return
 	}
 	defer conn.Close()
-	for bit := 0; bit < 64; bit++ {
-		f := peer.UDPFrame(5, body, false)
-		f[bit/8] ^= 1 << uint(bit%8)
-		conn.Write(f)
-		settle()
-		r.Eval(1)
-		for _, s := range rec.take() {
-			c.Violation("corrupted-header-frame-delivered:udp", fmt.Sprintf("header bit %d flipped: the service was handed %d bytes %q", bit, len(s), clip(s, 40)), map[string]interface{}{"bit": bit})
+	for _, body := range [][]byte{body, {}} {
+		for bit := 0; bit < 64; bit++ {
+			f := peer.UDPFrame(5, body, false)
+			f[bit/8] ^= 1 << uint(bit%8)
+			conn.Write(f)
+			settle()
+			r.Eval(1)
+			for _, s := range rec.take() {
+				c.Violation("corrupted-header-frame-delivered:udp", fmt.Sprintf("header bit %d flipped: the service was handed %d bytes %q", bit, len(s), clip(s, 40)), map[string]interface{}{"bit": bit})
+			}
+			r.Distinct(fmt.Sprintf("udp|bitflip|%d|%d", bit, len(body)))
 		}
-		r.Distinct(fmt.Sprintf("udp|bitflip|%d", bit))
 	}
 	// the server must still serve
 	conn.Write(peer.UDPFrame(6, body, false))
